@@ -405,6 +405,8 @@ func c14ValidJournal(t *rapid.T, small bool) ref.Journal {
 	}
 	if small {
 		cfg.MaxActions = c14Pick(t, "maxActionsSmall", 2, 4, 8)
+	} else {
+		gen.MaybeLarge(t, &cfg, 5)
 	}
 	return gen.GenJournal(t, cfg)
 }
